@@ -971,6 +971,15 @@ func applyOp(reg domain.ModelRegistry, uni *registry.UnifiedMemoryModelRegistry,
 		}
 		return reg.RegisterModels(ctx, urlStr, ms)
 	}
+	// half of the successful registrations are made the way a discovery round makes them: with a
+	// context that ends as soon as the call has returned (errgroup.WithContext cancels it when the
+	// round is over), while the registry still has background work to do for that listing
+	if (op.Kind == kindReg || op.Kind == kindRegEP) && len(op.Models)%2 == 1 {
+		round, over := context.WithCancel(context.Background())
+		err := register(round, target, op.Kind == kindRegEP)
+		over()
+		return err
+	}
 	switch op.Kind {
 	case kindReg:
 		return register(ctx, target, false)
